@@ -8,7 +8,7 @@
 From Coq Require Import List ZArith NArith Bool String Permutation.
 From FIM Require Import Base.Str Base.PySort Gen.Catalog Gen.CapsGen Model.Caps Model.Catalog18.
 From FIM Require Import Proofs.Catalog18Sizing Proofs.Catalog18Comp Proofs.Catalog18Lt Proofs.Catalog18Hist.
-From FIM Require Import Proofs.PySortPerm Proofs.Catalog18Generic Proofs.Catalog18Alias.
+From FIM Require Import Proofs.PySortPerm Proofs.Catalog18Generic Proofs.Catalog18Alias Proofs.Catalog18Lookup.
 Import ListNotations.
 Open Scope Z_scope.
 
@@ -259,6 +259,34 @@ Theorem C18_distinct_labels : forall cat e name nsid ids labs parent,
   = gen_component cat name (ByTypeModel (Some (e_type e)) (Some (e_model e))) nsid ids labs parent.
 Proof. exact seen_is_gen_component_when_distinct. Qed.
 Print Assumptions C18_distinct_labels.
+
+(* ---------------- the other look-ups over the same catalogue ---------------- *)
+(* component_details(model): the details of an entry with that Model (the last one), CatalogException iff there is none *)
+Theorem C18_component_details_exact : forall cat m,
+  match component_details cat m with
+  | Ok d => exists e, In e cat /\ e_model e = m /\ e_details e = d
+  | Err c => c = S"CatalogException" /\ forall e, In e cat -> e_model e <> m
+  end.
+Proof. exact component_details_exact. Qed.
+Print Assumptions C18_component_details_exact.
+
+(* search_catalog(ctype): exactly the entries of that Type -- every pair returned is (Model, Details) of such an entry and
+   every such entry's Model is a key --, CatalogException iff there is none *)
+Theorem C18_search_catalog_exact : forall cat t,
+  match search_catalog cat t with
+  | Ok d => (forall m dd, In (m, dd) d -> exists e, In e cat /\ e_type e = t /\ e_model e = m /\ e_details e = dd) /\
+            (forall e, In e cat -> e_type e = t -> exists dd, In (e_model e, dd) d)
+  | Err c => c = S"CatalogException" /\ forall e, In e cat -> e_type e <> t
+  end.
+Proof. exact search_catalog_exact. Qed.
+Print Assumptions C18_search_catalog_exact.
+
+(* a model_type outside the combined enumeration is refused (KeyError); by C18_history_state_unchanged a refused call,
+   like every call, leaves the catalogue state as it was *)
+Theorem C18_foreign_model_type_refused : forall cat name nsid ids labs parent,
+  gen_component cat name (ByModelType 0) nsid ids labs parent = Err (S"KeyError").
+Proof. exact foreign_model_type_refused. Qed.
+Print Assumptions C18_foreign_model_type_refused.
 
 (* ---------------- non-vacuity ---------------- *)
 (* some request has candidates and some has none; the cell list is not trivial; class_ok is not constantly true *)
